@@ -309,6 +309,8 @@ pub struct GenOpts {
     pub chain: bool,
     /// a third of the transactions read the fee recipient's balance (coinbase probe)
     pub cb: bool,
+    /// wrong-nonce transactions are mostly invalid for a second reason too
+    pub multi: bool,
 }
 
 /// A conflict-heavy block: few slots, data-dependent slot choice, shared callers (nonce chains).
@@ -439,6 +441,12 @@ pub fn gen_block(rng: &mut Rng, n_txs: usize, opts: GenOpts) -> (World, BlockSpe
                     descr.last_mut().unwrap().push_str(" [sender-with-code]");
                 }
             }
+        }
+        if opts.multi && !valid && tx.nonce != nonce && rng.chance(2, 3) {
+            // a second, later-checked reason next to the wrong nonce: a speculative attempt (nonce
+            // check off) rejects the transaction for THAT reason, in-order validation for the nonce
+            tx.value = U256::MAX / U256::from(2);
+            descr.last_mut().unwrap().push_str(" [+lack-of-funds]");
         }
         if valid {
             nonces.insert(caller, nonce + 1);
